@@ -104,7 +104,12 @@ func serviceConfigFor(keyIdx int, maxKeys uint64) *shutterservice.Config {
 
 // newSimNode wires one keyper node of the given flavour.
 func newSimNode(fl flavour, keyIdx int, maxKeys uint64) *simNode {
-	n := &simNode{Fl: fl, KeyIdx: keyIdx, DB: newDBNode(fl.definition(), 4), Cfg: mkKeyperConfig(keyIdx, simInstanceID, maxKeys)}
+	return newSimNodeOn(fl, keyIdx, maxKeys, newDBNode(fl.definition(), 4))
+}
+
+// newSimNodeOn wires a node on an existing database.
+func newSimNodeOn(fl flavour, keyIdx int, maxKeys uint64, dbn *dbNode) *simNode {
+	n := &simNode{Fl: fl, KeyIdx: keyIdx, DB: dbn, Cfg: mkKeyperConfig(keyIdx, simInstanceID, maxKeys)}
 	var err error
 	n.Msging, err = p2ptest.NewTestMessaging()
 	if err != nil {
